@@ -55,6 +55,12 @@ def _args_to_vars(
 class AttrDict(dict):
     __slots__ = ()
 
+    def __getattribute__(self, name: str):
+        # an argument can be named like a dict method (`items`, `get`, `update`...)
+        if dict.__contains__(self, name):
+            return dict.__getitem__(self, name)
+        return super().__getattribute__(name)
+
     def __getattr__(self, name: str):
         return self[name]
 
